@@ -311,3 +311,95 @@ Proof.
   assert (W' : afrag_wf fr' = true) by (rewrite (frag_fr_wf fr fr' (afrag_step_pure fr o fr' out E)); exact W).
   destruct out; try (specialize (IH fr' W'); destruct (run_hist afrag_step fr' rest); exact IH). exact W'.
 Qed.
+
+(* ------------------------------------------------------------------ the same for segments and files *)
+From V.c02 Require Import C02AggFileProofs.
+
+Lemma enc_seq_wf {A} (enc : A -> A * res (list (list N))) (wf : A -> bool) :
+  (forall a a' r, enc a = (a', r) -> wf a' = wf a) ->
+  forall l l' r, enc_seq enc l = (l', r) -> forallb wf l' = forallb wf l.
+Proof.
+  intros H. induction l as [|a rest IH]; intros l' r E.
+  - injection E as <- _. reflexivity.
+  - cbn [enc_seq] in E. destruct (enc a) as [a' ra] eqn:Ea. pose proof (H a a' ra Ea) as Wa.
+    destruct ra as [b| | |].
+    + destruct (enc_seq enc rest) as [rest' r2] eqn:Er. injection E as <- _. cbn [forallb]. rewrite Wa, (IH rest' r2 eq_refl). reflexivity.
+    + injection E as <- _. cbn [forallb]. rewrite Wa. reflexivity.
+    + injection E as <- _. cbn [forallb]. rewrite Wa. reflexivity.
+    + injection E as <- _. cbn [forallb]. rewrite Wa. reflexivity.
+Qed.
+
+Lemma afrag_encode_wf fr fr' r : afrag_encode fr = (fr', r) -> afrag_wf fr' = afrag_wf fr.
+Proof. intros H. apply frag_fr_wf. eapply afrag_encode_pure. exact H. Qed.
+
+Lemma aseg_encode_wf s s' r : aseg_encode s = (s', r) -> aseg_wf s' = aseg_wf s.
+Proof.
+  unfold aseg_encode. destruct (enc_list enc_obox _); try (intros [= <- _]; reflexivity).
+  destruct (enc_frags (sg_opt s) (sg_frags s)) as [fs' r2] eqn:E. intros [= <- _].
+  unfold aseg_wf. cbn [aseg_with_frags sg_styp sg_sidxs sg_frags]. f_equal.
+  unfold enc_frags in E. apply (enc_seq_wf _ afrag_wf) in E; [exact E|].
+  intros x x' rx Hx. rewrite (afrag_encode_wf _ _ _ Hx). reflexivity.
+Qed.
+
+Lemma aseg_step_wf s o s' out : aseg_step s o = (s', out) -> aseg_wf s' = aseg_wf s.
+Proof.
+  destruct o; cbn [aseg_step].
+  - intros [= <- _]. apply aseg_touch_wf.
+  - intros [= <- _]. apply aseg_touch_wf.
+  - destruct (aseg_encode s) as [x r] eqn:E. intros [= <- _]. eapply aseg_encode_wf. exact E.
+  - destruct (aseg_encode s) as [x r] eqn:E. intros [= <- _]. eapply aseg_encode_wf. exact E.
+Qed.
+
+Lemma fc_encode_wf c c' r : fc_encode c = (c', r) -> fc_wf c' = fc_wf c.
+Proof.
+  destruct c as [m|md|o]; cbn [fc_encode].
+  - intros [= <- _]. reflexivity.
+  - destruct (amd_enc md) as [md' r'] eqn:E. intros [= <- _].
+    assert (Hm : md' = md_size_touch md) by (rewrite <- (amd_enc_fst md), E; reflexivity). subst md'.
+    cbn [fc_wf]. apply md_wf_touch.
+  - intros [= <- _]. reflexivity.
+Qed.
+
+Lemma map_touch_wf {A} (touch : A -> A) (wf : A -> bool) : (forall a, wf (touch a) = wf a) ->
+  forall l, forallb wf (map touch l) = forallb wf l.
+Proof. intros H l. induction l as [|a t IH]; [reflexivity|]. cbn [map forallb]. rewrite H, IH. reflexivity. Qed.
+
+Lemma fc_touch_wf c : fc_wf (fc_touch c) = fc_wf c.
+Proof. destruct c; cbn [fc_touch fc_wf]; try reflexivity. apply md_wf_touch. Qed.
+
+Lemma afile_encode_wf f f' r : afile_encode f = (f', r) -> afile_wf f' = afile_wf f.
+Proof.
+  unfold afile_encode. destruct (fl_fragmented f && negb (fl_mode f =? 0) && negb (fl_mode f =? 1)); [intros [= <- _]; reflexivity|].
+  destruct (afile_seg_mode f).
+  - destruct (enc_list enc_obox _); try (intros [= <- _]; reflexivity).
+    destruct (enc_segs (fl_opt f) (fl_segs f)) as [ss' r2] eqn:E.
+    assert (W : forallb aseg_wf ss' = forallb aseg_wf (fl_segs f)).
+    { unfold enc_segs in E. apply (enc_seq_wf _ aseg_wf) in E; [exact E|].
+      intros x x' rx Hx. rewrite (aseg_encode_wf _ _ _ Hx). destruct (fl_opt f); reflexivity. }
+    assert (G : afile_wf (afile_with f ss' (fl_children f)) = afile_wf f) by (rewrite afile_wf_with, W; reflexivity).
+    destruct r2; try (intros [= <- _]; exact G).
+    destruct (enc_list enc_obox (opt_list (fl_mfra f))); intros [= <- _]; exact G.
+  - destruct (enc_children (fl_children f)) as [cs' r2] eqn:E. intros [= <- _].
+    unfold enc_children in E. apply (enc_seq_wf _ fc_wf fc_encode_wf) in E. rewrite afile_wf_with, E. reflexivity.
+Qed.
+
+Lemma afile_step_wf f o f' out : afile_step f o = (f', out) -> afile_wf f' = afile_wf f.
+Proof.
+  destruct o; cbn [afile_step].
+  - intros [= <- _]. unfold afile_touch. destruct (afile_seg_mode f); rewrite afile_wf_with;
+      rewrite ?(map_touch_wf aseg_touch aseg_wf aseg_touch_wf), ?(map_touch_wf fc_touch fc_wf fc_touch_wf); reflexivity.
+  - intros [= <- _]. unfold afile_info. destruct (afile_seg_mode f); [destruct (fl_shared f); [|reflexivity]|]; rewrite afile_wf_with;
+      rewrite ?(map_touch_wf aseg_touch aseg_wf aseg_touch_wf), ?(map_touch_wf fc_touch fc_wf fc_touch_wf); reflexivity.
+  - destruct (afile_encode f) as [x r] eqn:E. intros [= <- _]. eapply afile_encode_wf. exact E.
+  - destruct (afile_encode f) as [x r] eqn:E. intros [= <- _]. eapply afile_encode_wf. exact E.
+Qed.
+
+(* any history keeps well-formedness *)
+Lemma run_hist_wf {S} (step : S -> aop -> S * aout) (wf : S -> bool) :
+  (forall s o s' out, step s o = (s', out) -> wf s' = wf s) ->
+  forall ops s, wf (snd (run_hist step s ops)) = wf s.
+Proof.
+  intros H. induction ops as [|o rest IH]; intros s; [reflexivity|]. cbn [run_hist].
+  destruct (step s o) as [s' out] eqn:E. pose proof (H s o s' out E) as W.
+  destruct out; try (specialize (IH s'); destruct (run_hist step s' rest); cbn [snd] in *; congruence).
+Qed.
